@@ -279,3 +279,18 @@ Definition is_shlib (e : bytes * fkind) : bool := resolves_to_file (snd e) && ex
 (* the files whose digests are `compiler_shlibs_digests`, in the order they are hashed (libs.sort()) *)
 Definition sysroot_libs (libdir : bytes) (entries : list (bytes * fkind)) : list bytes :=
   sort_paths (map (fun e => path_join libdir (fst e)) (filter is_shlib entries)).
+
+(* ---------- the preliminary `rustc ... --emit dep-info` run (source files and env-deps come from it) ---------- *)
+
+Definition depinfo_dropped : list bytes := [bs "--emit"; bs "--out-dir"].
+
+(* `filtered_arguments`: every (flag, value) pair of the request except --emit and --out-dir, flattened; rustc must
+   expand the crate exactly as the real compile does (cfg(debug_assertions) follows -C opt-level, --cfg, --target ...) *)
+Definition depinfo_args (args : list pair) : list bytes :=
+  flat_map pieces_of (filter (fun p => negb (name_in depinfo_dropped p)) args).
+
+(* ---------- static libraries: what hash_regular_archive feeds to the digest ---------- *)
+
+(* every member in ARCHIVE order, name then data (headers, dates, modes are skipped; members of one name all count) *)
+Definition archive_preimage (members : list (bytes * bytes)) : bytes :=
+  flat_map (fun m => fst m ++ snd m) members.
